@@ -23,12 +23,52 @@ def correspondence(ck):
     ck.obligation("correspondence:utils.kaiser_alpha == Kaiser.kaiser_alpha at binary64 (bit-exact)", not bad, "; ".join(bad[:3]))
 
 
-def sweep(ck):
-    """Response to a pure sinusoid at analysis offsets beyond sqrt(1+alpha^2) bins is at least P-1 dB below the on-frequency response."""
+def _lines(P, L, b0, ph, b):
+    """Responses at analysis bin b of the two spectral lines (+b0 and its image -b0) of cos(2 pi b0 n/L + ph), separated with the
+    quadrature partner sin(...):  |C + iS|^2 = XX + YY + 2 Im(XY) is the line at +b0 alone, |C - iS|^2 the image alone
+    (or the other way round; the caller fixes the sign on the sinusoid's own frequency), XX is the real sinusoid (both lines)."""
     from speckit.analysis import SpectrumAnalyzer
+    th = 2 * np.pi * b0 * np.arange(L) / L + ph
+    an = SpectrumAnalyzer(np.vstack([np.cos(th), np.sin(th)]), 1.0, win="kaiser", psll=P, order=-1, olap=0.0)
+    d = an.compute_single_bin(b / L, L=L)._data
+    XX = float(d["XX"][0]); YY = float(d["YY"][0]); im = float(np.imag(d["XY"][0]))
+    return XX, XX + YY + 2 * im, XX + YY - 2 * im
+
+
+def sidelobe_case(P, L, b0, ph, off):
+    """Returns (violation text or None, suppression of the line in dB, suppression of the real sinusoid in dB)."""
+    from speckit.utils import kaiser_alpha
+    alpha = float(kaiser_alpha(P)); lobe = math.sqrt(1 + alpha * alpha)
+    xx0, p0, m0 = _lines(P, L, b0, ph, b0)
+    sgn = 1 if p0 >= m0 else -1
+    on = max(p0, m0)
+    b = b0 + off
+    xx, p, m = _lines(P, L, b0, ph, b)
+    line, image = (p, m) if sgn == 1 else (m, p)
+    sup = 10 * math.log10(on / max(line, 1e-320))
+    sup_real = 10 * math.log10(xx0 / max(xx, 1e-320))
+    what = None
+    if sup < P - 1 - 0.05:
+        what = "psll=%g, L=%d: response %.2f bins from a spectral line at bin %.3f (phase %.2f) is only %.2f dB down (requested %g)" % (P, L, abs(off), b0, ph, sup, P)
+    # the image line at -b0 (periodically L - b0) is the same window response at another offset
+    dimg = min(abs((b + b0) % L), abs(L - (b + b0) % L))
+    if what is None and dimg > lobe * 1.0001:
+        supi = 10 * math.log10(on / max(image, 1e-320))
+        if supi < P - 1 - 0.05:
+            what = "psll=%g, L=%d: response %.2f bins from the image line of a sinusoid at bin %.3f (phase %.2f) is only %.2f dB down (requested %g)" % (P, L, dimg, b0, ph, supi, P)
+    # the real sinusoid is the coherent sum of the two lines: its response cannot exceed (|line| + |image|)^2 / 4
+    if what is None and xx > 0.25 * (math.sqrt(max(line, 0)) + math.sqrt(max(image, 0))) ** 2 * (1 + 1e-6) + 1e-300:
+        what = "psll=%g, L=%d: response to the real sinusoid at bin %.3f exceeds the coherent sum of its two lines at offset %.2f" % (P, L, b0, off)
+    return what, sup, sup_real
+
+
+def sweep(ck):
+    """Response to a pure sinusoid at analysis offsets beyond sqrt(1+alpha^2) bins is at least P-1 dB below the on-frequency response.
+    The suppression is measured per spectral line: a real sinusoid has a second line at -b0 whose own (equally suppressed) leakage adds
+    coherently, which for short segments costs up to 6 dB at frequencies comparably far from both and says nothing about the window."""
     from speckit.utils import kaiser_alpha
     n = 30 if ck.tier == "quick" else 500
-    worst = 1e9
+    worst = 1e9; worst_real = 1e9
     evals = 0
     for _ in range(n):
         P = ck.rng.choice([40, 60, 80, 120, 160, 200, ck.rng.uniform(40, 200)])
@@ -37,24 +77,20 @@ def sweep(ck):
         b0 = ck.rng.uniform(lobe + 1, L / 2 - lobe - 1)
         if not (b0 > lobe + 1):
             continue
-        ph = ck.rng.uniform(0, 2 * np.pi); fs = 1.0
-        x = np.cos(2 * np.pi * b0 * np.arange(L) / L + ph)
-        an = SpectrumAnalyzer(x, fs, win="kaiser", psll=P, order=-1, olap=0.0)
-        on = float(an.compute_single_bin(b0 * fs / L, L=L)._data["XX"][0])
+        ph = ck.rng.uniform(0, 2 * np.pi)
         offs = [lobe * 1.0001, lobe + ck.rng.uniform(0, 2), lobe + ck.rng.uniform(2, 10), ck.rng.uniform(lobe, L / 4)]
         for off in offs:
             for sgn in (-1, 1):
                 b = b0 + sgn * off
                 if b < 0 or b > L / 2:
                     continue
-                v = float(an.compute_single_bin(b * fs / L, L=L)._data["XX"][0]); evals += 1
-                sup = 10 * math.log10(on / max(v, 1e-320))
-                worst = min(worst, sup - (P - 1))
-                if sup < P - 1 - 0.05:
-                    ck.violation("psll=%g, L=%d: response %.2f bins from a sinusoid at bin %.3f (phase %.2f) is only %.2f dB down (requested %g)" % (P, L, off, b0, ph, sup, P),
-                                 dict(psll=P, L=L, bin=b0, offset=sgn * off, phase=ph), tag="sidelobe")
+                what, sup, sup_real = sidelobe_case(P, L, b0, ph, sgn * off); evals += 1
+                worst = min(worst, sup - (P - 1)); worst_real = min(worst_real, sup_real - (P - 1))
+                if what:
+                    ck.violation(what, dict(psll=P, L=L, bin=b0, offset=sgn * off, phase=ph), tag="sidelobe")
     ck.cov["sidelobe_evaluations"] = evals
     ck.cov["worst_margin_dB_over_P_minus_1"] = worst
+    ck.cov["worst_margin_dB_real_sinusoid_both_lines"] = worst_real
 
 
 def run(ck):
@@ -63,10 +99,12 @@ def run(ck):
     ck.build_theorems("Properties/C12.v", deps=["Kaiser.vo", "Dispatch.vo", "gen/DispatchGen.vo"])
     correspondence(ck)
     sweep(ck)
-    ck.cov["rule"] = "P in [40,200], L in {64,100,1000,4096}, random fractional sinusoid bins and phases, analysis offsets just beyond and far beyond sqrt(1+alpha^2) bins on both sides; threshold P-1 dB with 0.05 dB numerical allowance"
+    ck.cov["rule"] = "P in [40,200], L in {64,100,1000,4096}, random fractional sinusoid bins and phases, analysis offsets just beyond and far beyond sqrt(1+alpha^2) bins on both sides; suppression measured per spectral line (the line and its image separated with the quadrature partner through XX+YY+-2Im(XY)); threshold P-1 dB with 0.05 dB numerical allowance"
     ck.samples = [dict(psll=200, L=64), dict(psll=60, L=1000)]
     ck.assumptions += ["PARTIAL: the Kaiser-Bessel side-lobe bound itself is swept, not proved (no Bessel theory in the installed libraries)", "np.kaiser / i0 accuracy"]
 
 
 def replay(rec):
-    print("replay input:", rec["violation"]["input"]); return 1
+    i = rec["violation"]["input"]
+    what, sup, sup_real = sidelobe_case(i["psll"], i["L"], i["bin"], i["phase"], i["offset"])
+    print("replay:", what or "property holds now (line %.2f dB down, real sinusoid %.2f dB)" % (sup, sup_real)); return 1 if what else 0
